@@ -1,7 +1,7 @@
 """Value-level semantics: coercions between sorts, Python equality, truthiness, string/int conversions."""
 import z3
 
-from .sorts import (SV, PyTuple, PyVal, Sort, INT, BOOL, STR, REAL, VAL, NONE, NONE_V, RefT, SeqT, SetT, MapT, TupT, Val, Ref, null,
+from .sorts import (SV, PyTuple, PyVal, ModuleRef, Sort, INT, BOOL, STR, REAL, VAL, NONE, NONE_V, RefT, SeqT, SetT, MapT, TupT, Val, Ref, null,
                     zsort, fresh, mk_bool, mk_int, mk_str)
 
 
@@ -116,6 +116,8 @@ def coerce(v, s):
                 raise OutsideSubset('tuple arity mismatch')
             return SV(s, s.z().mk(*[coerce(i, e).t for i, e in zip(v.items, s.elems)]))
         raise OutsideSubset('cannot coerce a tuple to %s' % s)
+    if isinstance(v, ModuleRef) and s == VAL:
+        return SV(VAL, z3.Const('module_object_%s' % v.name.replace('.', '_'), Val))   # a module / logger object passed along: opaque
     if isinstance(v, PyVal):
         raise OutsideSubset('cannot store %s as %s' % (type(v).__name__, s))
     if v.sort == s:
